@@ -5,6 +5,7 @@ reg(Prop('C07', [
     Stream('c07.ops', 5000, 300000, 'model', shards=3, exhaustive='every opcode byte as the first operation of an expression'),
     Stream('c07.value', 20000, 1000000, 'model', shards=3, exhaustive='every Value operation x every pair of value types x boundary operands x address masks; shift counts 0..70'),
     Stream('c07.eval', 20000, 1000000, 'model', shards=3, exhaustive='every program of length <= 3 (thorough: <= 4) over the 41-letter alphabet of DESIGN C07, address sizes 1/2/4/8; with initial value / fixed-capacity storage: length <= 2'),
+    Stream('c07.spec', 10000, 500000, 'spec', shards=3, exhaustive='every Value operation x matching type pairs x boundary operands x address sizes 1/2/4/8, generic results reduced modulo the address size, against the specification algebra (Spec/StackSpec.v); class k = generic shift counts beyond the address size'),
 ], clauses=[], design_ref='§5 C07', level='proof (partial)',
     level_text='placeholder',
     level_note='',
